@@ -50,6 +50,8 @@ type Pipe struct {
 	lastAt   int64
 	Window   int // 0 = unlimited
 	buffered int
+	// OnFlip is called (in the writing task) when the FlipAt byte goes out damaged.
+	OnFlip func()
 	// FailAt (-1 = none): see Conn.Write. Failed reports that it happened.
 	FailAt  int64
 	FailErr error
@@ -101,7 +103,7 @@ func (p *Pipe) nextAt() int64 {
 
 //go:norace
 func (p *Pipe) writable() bool {
-	return p.rclosed || p.Window == 0 || p.buffered < p.Window
+	return p.rclosed || p.wclosed || p.Window == 0 || p.buffered < p.Window
 }
 
 //go:norace
@@ -304,7 +306,8 @@ func (c *Conn) Write(b []byte) (int, error) {
 				t.wk = wPipeWindow
 				t.wpipe = p
 				s.block(t)
-				if c.closed {
+				if c.closed || p.wclosed {
+					// closed from another task while this Write was blocked on the window
 					return off, ErrClosed
 				}
 			}
@@ -347,6 +350,9 @@ func (c *Conn) Write(b []byte) (int, error) {
 		if p.FlipAt >= 0 && p.FlipMask != 0 && p.FlipAt >= p.BytesW && p.FlipAt < p.BytesW+int64(n) {
 			d[p.FlipAt-p.BytesW] ^= p.FlipMask
 			p.Flipped = true
+			if p.OnFlip != nil {
+				p.OnFlip()
+			}
 		}
 		lat := p.Latency
 		if p.Jitter > 0 && (first || p.SegPol != SegWhole) {
